@@ -443,6 +443,84 @@ fn run(v: &Value) -> Result<String, String> {
             let _ = std::fs::remove_dir_all(&dir);
             Ok(format!("{cases} producer cases x 5 pullers held"))
         }
+        "fleet_outcome_sequences" => {
+            // Bounded stand-in / replay for C19: a scripted node exhibits, per accepted connection, one of the
+            // outcomes below; then it turns healthy. Checks: at most max_attempts connections are opened per call,
+            // an application error / success is returned without a retry, and after the script a later call
+            // succeeds (the node is not wedged).
+            //   "close_after_accept" : accept, read the request, close without replying
+            //   "reply_ok"           : answer, keep the connection open
+            //   "reply_then_close"   : answer, then close the idle connection   ("closed while idle")
+            //   "app_error"          : answer with an application error code
+            use std::net::TcpListener;
+            use std::sync::atomic::{AtomicUsize, Ordering};
+            use std::sync::Arc;
+            use std::time::Duration;
+            let script: Vec<String> = v["script"].as_array().unwrap().iter().map(|x| x.as_str().unwrap().to_string()).collect();
+            let max_attempts = v.get("max_attempts").and_then(|x| x.as_u64()).unwrap_or(2) as usize;
+            let calls = v.get("calls").and_then(|x| x.as_u64()).unwrap_or(3) as usize;
+            let use_async = v.get("async").and_then(|x| x.as_bool()).unwrap_or(false);
+            let listener = TcpListener::bind("127.0.0.1:0").unwrap();
+            let port = listener.local_addr().unwrap().port();
+            let accepted = Arc::new(AtomicUsize::new(0));
+            let acc2 = accepted.clone();
+            std::thread::spawn(move || {
+                for (i, conn) in listener.incoming().enumerate() {
+                    let Ok(mut s) = conn else { break };
+                    acc2.fetch_add(1, Ordering::SeqCst);
+                    let mode = script.get(i).cloned().unwrap_or_else(|| "reply_ok".to_string());
+                    std::thread::spawn(move || {
+                        loop {
+                            let Ok(req) = repe::read_message(&mut s) else { return };
+                            if req.header.notify == 1 { continue; }
+                            match mode.as_str() {
+                                "close_after_accept" => return,
+                                "app_error" => {
+                                    let mut m = repe::Message::builder().id(req.header.id).error_code(repe::ErrorCode::ApplicationErrorBase)
+                                        .body_utf8("nope").build();
+                                    m.header.id = req.header.id;
+                                    if repe::write_message(&mut s, &m).is_err() { return }
+                                }
+                                _ => {
+                                    let m = repe::Message::builder().id(req.header.id).body_json(&serde_json::json!("pong")).unwrap().build();
+                                    if repe::write_message(&mut s, &m).is_err() { return }
+                                    use std::io::Write as _;
+                                    let _ = s.flush();
+                                    if mode == "reply_then_close" { return }
+                                }
+                            }
+                        }
+                    });
+                }
+            });
+            let cfg = repe::NodeConfig::new("127.0.0.1", port).unwrap().with_name("n").unwrap()
+                .with_timeout(Duration::from_millis(800)).unwrap();
+            let opts = repe::FleetOptions { retry_policy: repe::RetryPolicy { max_attempts, delay: Duration::from_millis(10) }, ..Default::default() };
+            let mut log = Vec::new();
+            let rt = tokio::runtime::Builder::new_multi_thread().worker_threads(2).enable_all().build().unwrap();
+            enum F { S(repe::Fleet), A(repe::AsyncFleet) }
+            let fleet = if use_async { F::A(repe::AsyncFleet::with_options(vec![cfg], opts).map_err(|e| e.to_string())?) }
+                        else { F::S(repe::Fleet::with_options(vec![cfg], opts).map_err(|e| e.to_string())?) };
+            let mut last_ok = false;
+            for c in 0..calls {
+                let before = accepted.load(Ordering::SeqCst);
+                let r = match &fleet {
+                    F::S(f) => f.call_json("n", "/ping", Some(&serde_json::json!(1))).map_err(|e| e.to_string())?.into_result(),
+                    F::A(f) => rt.block_on(f.call_json("n", "/ping", Some(&serde_json::json!(1)))).map_err(|e| e.to_string())?.into_result(),
+                };
+                std::thread::sleep(Duration::from_millis(150)); // let an idle close be noticed
+                let opened = accepted.load(Ordering::SeqCst) - before;
+                if opened > max_attempts {
+                    return Err(format!("call {c} opened {opened} connections with max_attempts {max_attempts}"));
+                }
+                last_ok = r.is_ok();
+                log.push(format!("call{c}:{}(+{opened}conn)", match &r { Ok(_) => "Ok".to_string(), Err(e) => format!("Err({e})") }));
+            }
+            if !last_ok {
+                return Err(format!("node wedged: after the scripted failures the node is healthy, yet the last call still failed: {}", log.join(" ")));
+            }
+            Ok(log.join(" "))
+        }
         other => panic!("unknown replay entry `{other}`"),
     }
 }
